@@ -2,7 +2,8 @@
 from plan import H, nlimbs, nbytes
 
 QUICK = [0, 12, 60, 65]
-HEAVYQ = [12, 65]   # scale_fixed, pg_bit, pg_varbit, der_value cost 50-250 s each: two widths in the quick tier
+HEAVYQ = [12]   # scale_fixed, pg_bit, pg_varbit, der_value cost 50-380 s each: one width in the quick tier (the 65-bit ones pushed
+                # the quick command past 900 s on a loaded machine in `vp check`)
 ALL = [0, 1, 7, 8, 12, 16, 60, 64, 65, 72, 120]
 PG = {0: "BOOL", 1: "INT2", 2: "INT4", 3: "INT8", 4: "OID", 5: "MONEY", 6: "BYTEA", 7: "BIT", 8: "VARBIT"}
 FMT = ("alloc::fmt::format", "stubs::format_stub")
@@ -37,6 +38,8 @@ def harnesses():
             ht = tier if b in HEAVYQ else "thorough"
             add("scale_fixed", "c17::scale_fixed::<%d,%d,%d,%d>" % (b, l, nb, nx), ["parity_scale_codec::Decode::decode"],
                 covers_required=["accepts"], tier=ht, timeout=1200)
+            # (1 and 7 bits - narrower than the single-byte mode's six payload bits, seeded change C17-4 - were probed against the
+            #  patched tree: no verdict after 35 min, 13 GB; not registered)
             if b in (8, 16) and k == 3:
               # 520 s at 8 bits: the big-integer arm builds Vecs of symbolic size and a Uint<536,9>
               add("scale_compact", "c17::scale_compact::<%d,%d,%d>" % (b, l, nx), ["Decode for Compact<Uint>"],
